@@ -43,7 +43,7 @@ def run(chk):
                                 catch=(UnitError, DTypeError, DimensionError, ValueError, TypeError))
             pre = f'{MOD}:{kname}'
             if combo == (F64,) * 4:
-                chk.canary(f'{pre}/requires[{tag}]', base + kit.CONST_AXIOMS + units.scale_axioms())
+                chk.canary(f'{pre}/requires[{tag}]', base + kit.CONST_AXIOMS)
             for i, p in enumerate(paths):
                 ptag = tag if len(paths) == 1 else f'{tag}/path{i}'
                 meta = {'kernel': kname, 'dtypes': {k: str(v) for k, v in dts.items()}}
